@@ -68,13 +68,15 @@ def real_borrowers(ctx):
             for e in held:
                 with open(os.path.join(d, 'X-MIB' + e), 'w') as f:
                     f.write('CONTENT' + e)
-            for cls, own in ((PyFileBorrower, None), (AnyFileBorrower, ['.json'])):
+            for cls, own in ((PyFileBorrower, None), (AnyFileBorrower, ['.json']), (AnyFileBorrower, None)):
                 for flavour in (True, False):
                     for g in ('absent', None, True, False):
                         b = cls(FileReader(d), genTexts=flavour)
                         if own is not None:
                             b.setOptions(exts=own)
-                        own_exts = list(b.exts)
+                        # what the class stands for, not what its attribute happens to hold: Python files for the one, the
+                        # bare module name (or the extensions it is given) for the other
+                        own_exts = list(own) if own is not None else (['.py'] if cls is PyFileBorrower else [''])
                         opts = {} if g == 'absent' else {'genTexts': g}
                         try:
                             info, data = b.getData('X-MIB', **opts)
